@@ -261,7 +261,7 @@ def %NAME%(self, other):
         return NotImplemented
     try:
         other = mpf.context.convert(other, strings=False)
-    except TypeError:
+    except (TypeError, ValueError):
         return NotImplemented
     return self.%NAME%(other)
 """
